@@ -252,4 +252,54 @@ class C10d(Obligation):
             ctx.check(out.raised(ImportError), 'nothing found => ImportError')
 
 
-OBLIGATIONS = [C10a, C10c, C10d]
+class C10b(Obligation):
+    id = 'C10.b'
+    title = 'relative import beyond the top-level package: never raises, and any guessed base lies at the project root'
+    pattern = 'P1 (Importer.__init__ heuristic branch + _level_to_base_import_path over structured paths)'
+    assumptions = (
+        'the importing file lies d<=3 directories below the project root or outside it; level > len(package) '
+        '(symbolic, <=6); import path of 0..2 names; paths are concrete component lists (POSIX), os.path is real',
+    )
+
+    def configs(self, tier):
+        return [dict(depth=d, k=k, where=w) for d in (0, 1, 2, 3) for k in (0, 1, 2) for w in ('inside', 'outside', 'nopath')]
+
+    def scenario(self, ctx, cfg):
+        depth, k = cfg['depth'], cfg['k']
+        project = '/home/proj'
+        sub = ['s%d' % i for i in range(depth)]
+        if cfg['where'] == 'inside':
+            path = '/'.join([project] + sub + ['mod.py'])
+        elif cfg['where'] == 'outside':
+            path = '/'.join(['/elsewhere'] + sub + ['mod.py'])
+        else:
+            path = None
+        n_pkg = ctx.choice('package_depth', depth + 1)           # how many of the dirs are packages
+        base = ['pkg%d' % i for i in range(n_pkg)]
+        level = ctx.int('level', n_pkg + 1, 6)
+        import_path = tuple('name%d' % i for i in range(k))
+        errors = []
+        ctx.patch(jimports, '_add_error', lambda ctx_, name, message=None: errors.append(message))
+        imp = jimports.Importer.__new__(jimports.Importer)
+        state = Obj(project=Obj(path=project))
+        out = ctx.call(jimports.Importer.__init__, imp, state, import_path, ModContext(base, path), level)
+        ctx.check(out.exc is None, 'Importer() never raises for an import beyond the top-level package')
+        if out.exc is not None:
+            return
+        ctx.check(imp.import_path is not None and len(imp.import_path) >= 0, 'an import path is always set')
+        if imp._fixed_sys_path is not None:
+            ctx.check(imp._fixed_sys_path == [project] or not imp._infer_possible or
+                      all(isinstance(p, str) for p in imp._fixed_sys_path), 'the guessed search root is a directory path')
+        # the guess: names + root reproduce the directory `level-1` levels above the file
+        if imp._infer_possible and imp._fixed_sys_path == [project] and len(imp.import_path) >= k:
+            guessed = list(imp.import_path)[:len(imp.import_path) - k]
+            start = (project if path is None else '/'.join(path.split('/')[:-1])).split('/')
+            lv = n_pkg + 1
+            while lv < 6 and level != lv:
+                lv += 1
+            target = start[:len(start) - (lv - 1)]
+            ctx.check('/'.join([project] + guessed) == '/'.join(target),
+                      'project root + guessed names is the directory level-1 levels above the importing file')
+
+
+OBLIGATIONS = [C10a, C10b, C10c, C10d]
